@@ -163,7 +163,8 @@ class NMEA2000Decoder():
             logger.debug("All Fast packet frames collected for PGN: %d", pgn)
 
             # All data for this PGN has been received, proceed to publish
-            combined_payload = bytes([b for idx in sorted(fast_pgn.frames) for b in fast_pgn.frames[idx][::-1]])[::-1]
+            # The last frame is usually padded to 8 bytes (0xFF on real networks); only the announced number of bytes belongs to the payload
+            combined_payload = bytes([b for idx in sorted(fast_pgn.frames) for b in fast_pgn.frames[idx][::-1]])[:fast_pgn.payload_length][::-1]
             
             nmea = None
             if combined_payload is not None:
